@@ -106,7 +106,10 @@ type c25Action struct {
 }
 
 func (a *c25Action) wallet() wallet               { return c25Wallets[a.d.op.Wallet] }
-func (a *c25Action) actionType() WalletActionType { return ActionHeartbeat }
+// action types differ between dispatches: what the wallet is busy with must not matter
+func (a *c25Action) actionType() WalletActionType {
+	return []WalletActionType{ActionHeartbeat, ActionDepositSweep, ActionRedemption}[a.d.id%3]
+}
 func (a *c25Action) execute() error {
 	o, d := a.obs, a.d
 	d.execs++
